@@ -619,6 +619,304 @@ def stats_stage(run, n_cases, n_vec=0):
     return cases, failing, oracle_bad
 
 
+# ---------------------------------------------------------------- VECTORISED apertures: half sizes with a batch shape, +inf next to finite entries
+VDT = {"float32": torch.float32, "float64": torch.float64}
+VHALF = [0.5, 1.0, 0.25, 2.0, 0.125]          # dyadic (exact in float32); particle coordinates are odd multiples of 1/128: never on an edge
+VQ = [2.0 ** -40, 2.0 ** -39, 0.0, 1.0, 3 * 2.0 ** -41]
+
+
+def nested(shape, fn, idx=()):
+    """nested list of the given shape with entries fn(multi-index)"""
+    if not shape:
+        return fn(idx)
+    return [nested(shape[1:], fn, idx + (k,)) for k in range(shape[0])]
+
+
+def at(nest, idx):
+    for k in idx:
+        nest = nest[k]
+    return nest
+
+
+def bshape(*shapes):
+    return tuple(torch.broadcast_shapes(*[tuple(s) for s in shapes]))
+
+
+def bidx(idx, shape, full):
+    """the index into a tensor of batch shape `shape` that entry `idx` of the broadcast batch shape `full` reads"""
+    off = len(full) - len(shape)
+    return tuple(0 if shape[k] == 1 else idx[off + k] for k in range(len(shape)))
+
+
+def shape_of(nest, inner):
+    """batch shape of a nested list whose innermost `inner` levels are data"""
+    s = []
+    while isinstance(nest, list):
+        s.append(len(nest))
+        nest = nest[0]
+    return tuple(s[:len(s) - inner])
+
+
+def gen_half_vectors(rng, layout, B):
+    """(x_max, y_max) as nested lists / floats: batch shapes mixing +inf and finite entries"""
+    fin = lambda: rng.choice(VHALF)  # noqa: E731
+
+    def mixed(n):
+        while True:
+            v = [INF if rng.random() < 0.45 else fin() for _ in range(n)]
+            if INF in v and any(h != INF for h in v):
+                return v
+    if layout == "x_only":
+        return mixed(B), rng.choice([INF, INF, fin()])
+    if layout == "y_only":
+        return rng.choice([INF, INF, fin()]), mixed(B)
+    if layout == "both_same":
+        x = mixed(B)
+        return x, [INF if h == INF else fin() for h in x]
+    if layout == "both_opposite":
+        x = mixed(B)
+        return x, [fin() if h == INF else INF for h in x]
+    if layout == "outer":                         # x_max (B, 1) against y_max (B2,)
+        return [[h] for h in mixed(B)], mixed(rng.choice([2, 3]))
+    if layout == "finite":
+        return [fin() for _ in range(B)], [fin() for _ in range(B)]
+    if layout == "all_inf_x":
+        return [INF] * B, mixed(B)
+    raise ValueError(layout)
+
+
+def gen_vec_aperture_case(rng):
+    layout = rng.choice(["x_only", "y_only", "both_same", "both_opposite", "both_opposite", "outer", "finite", "all_inf_x"])
+    B = rng.choice([2, 3, 4])
+    xm, ym = gen_half_vectors(rng, layout, B)
+    ap_shape = bshape(shape_of(xm, 0), shape_of(ym, 0))
+    n = rng.randrange(3, 7)
+    g = lambda s: (2 * rng.randrange(-int(s * 64) - 1, int(s * 64) + 1) + 1) / 128  # noqa: E731
+
+    def particle():
+        return [g(rng.choice([0.3, 1.2, 2.5])), g(0.5), g(rng.choice([0.3, 1.2, 2.5])), g(0.5), g(0.01), g(0.01), 1.0]
+    beam_mode = rng.choice(["plain", "plain", "batch", "survival", "outer"])
+    if beam_mode == "plain":
+        bs = ()
+    elif beam_mode in ("batch", "survival"):
+        bs = (ap_shape[-1],)                      # lines up with the last batch dimension of the aperture
+    else:
+        bs = (rng.choice([2, 3]),) + (1,) * len(ap_shape)      # a leading batch dimension of the beam: every beam x every aperture
+    proto = [particle() for _ in range(n)]
+    if beam_mode in ("batch", "outer"):
+        parts = nested(bs, lambda i: [particle() for _ in range(n)])
+    else:
+        parts = proto
+    srow = lambda: [rng.choice([1.0, 1.0, 1.0, 0.5, 0.25, 0.0]) for _ in range(n)]  # noqa: E731
+    surv = nested(bs, lambda i: srow()) if beam_mode != "plain" and rng.random() < 0.8 else srow()
+    return {"layout": layout, "x_max": xm, "y_max": ym, "shape": rng.choice(["rectangular", "elliptical"]), "is_active": rng.random() < 0.85,
+            "dtype": rng.choice(["float64", "float64", "float32"]), "beam_mode": beam_mode, "particles": parts, "survival": surv,
+            "charges": [rng.choice(VQ) for _ in range(n)], "energy": rng.choice(realgen.ENERGIES),
+            "where": rng.choice(["alone", "alone", "segment", "segment_drift", "two_apertures"])}
+
+
+def vec_aperture_objects(case):
+    import cheetah
+    dt = VDT[case["dtype"]]
+    T = lambda v: torch.tensor(v, dtype=dt)  # noqa: E731
+    beam = cheetah.ParticleBeam(T(case["particles"]), T(case["energy"]), particle_charges=T(case["charges"]),
+                                survival_probabilities=T(case["survival"]), dtype=dt)
+    ap = cheetah.Aperture(x_max=T(case["x_max"]), y_max=T(case["y_max"]), shape=case["shape"], is_active=case["is_active"], name="vap", dtype=dt)
+    return beam, ap, dt
+
+
+def scalar_aperture(kw, dt, name="sap"):
+    import cheetah
+    return cheetah.Aperture(x_max=torch.tensor(kw["x_max"], dtype=dt), y_max=torch.tensor(kw["y_max"], dtype=dt), shape=kw["shape"],
+                            is_active=kw["is_active"], name=name, dtype=dt)
+
+
+def vec_aperture_oracle(case, want_terms=False):
+    """Entry by entry, a vectorised aperture is the scalar aperture of that entry: survival (exact specification and the real un-vectorised
+    Aperture), untouched coordinates / charges / energy, broadcast shape of the survival tensor, total charge, and every beam statistic of
+    the entry.  Returns (problems, coq_cases) with coq_cases = [(kw, beam_in, beam_out_observed)] per entry for ap_check."""
+    import cheetah
+    prob, coq_cases = [], []
+    try:
+        beam, ap, dt = vec_aperture_objects(case)
+        pre = None
+        if case["where"] == "alone":
+            out = ap.track(beam)
+            at_ap = beam
+        elif case["where"] == "segment":
+            out = cheetah.Segment([cheetah.Marker(name="m0"), ap, cheetah.Marker(name="m1")]).track(beam)
+            at_ap = beam
+        elif case["where"] == "segment_drift":
+            pre = cheetah.Drift(length=torch.tensor(0.5, dtype=dt), name="d0", dtype=dt)
+            post = cheetah.Drift(length=torch.tensor(0.25, dtype=dt), name="d1", dtype=dt)
+            out = cheetah.Segment([pre, ap, post]).track(beam)
+            at_ap = pre.track(beam)
+        else:                                    # two vectorised apertures in a row (the second one: the transposed half sizes)
+            ap2 = cheetah.Aperture(x_max=ap.y_max.clone(), y_max=ap.x_max.clone(), shape=case["shape"], is_active=case["is_active"], name="vap2", dtype=dt)
+            out = cheetah.Segment([ap, ap2]).track(beam)
+            at_ap = beam
+    except Exception as ex:
+        return [f"building / tracking raised {ex!r}"[:300]], coq_cases
+    n = len(case["charges"])
+    beam_bs = bshape(tuple(beam.particles.shape[:-2]), tuple(beam.survival_probabilities.shape[:-1]))
+    ap_bs = bshape(tuple(ap.x_max.shape), tuple(ap.y_max.shape))
+    full = bshape(beam_bs, ap_bs) if case["is_active"] else beam_bs
+    if not isinstance(out, cheetah.ParticleBeam):
+        return ["outgoing beam is not a ParticleBeam"], coq_cases
+    so = out.survival_probabilities
+    want_shape = full + (n,) if case["is_active"] else tuple(beam.survival_probabilities.shape)
+    if tuple(so.shape) != want_shape:
+        return [f"survival_probabilities of the outgoing beam have shape {tuple(so.shape)}, expected {want_shape} "
+                f"(beam batch {beam_bs} x aperture batch {ap_bs})"], coq_cases
+    so = torch.broadcast_to(so, full + (n,))
+    if case["where"] in ("alone", "segment", "two_apertures"):
+        if not torch.equal(out.particles, beam.particles):
+            prob.append("coordinates changed")
+    if not torch.equal(out.particle_charges, beam.particle_charges) or not torch.equal(out.energy, beam.energy):
+        prob.append("charges / energy changed")
+    P_ap = torch.broadcast_to(at_ap.particles, full + (n, 7)) if case["is_active"] else None
+    S_in = torch.broadcast_to(beam.survival_probabilities, full + (n,))
+    P_in = torch.broadcast_to(beam.particles, full + (n, 7))
+    xs, ys = torch.broadcast_to(ap.x_max, ap_bs), torch.broadcast_to(ap.y_max, ap_bs)
+    tq = torch.as_tensor(out.total_charge, dtype=torch.float64)
+    if case["is_active"] and tuple(tq.shape) != full:
+        prob.append(f"total_charge has shape {tuple(tq.shape)}, expected {full}")
+    stats = {}
+    for nme in STAT_NAMES:
+        try:
+            v = torch.as_tensor(getattr(out, nme), dtype=torch.float64)
+            stats[nme] = torch.broadcast_to(v, full) if v.dim() <= len(full) else v
+        except Exception as ex:
+            prob.append(f"{nme} of the outgoing beam raised {ex!r}"[:300])
+    eps = 1e-6 if case["dtype"] == "float32" else 1e-12
+    for idx in ([()] if not full else [tuple(i) for i in torch.cartesian_prod(*[torch.arange(s) for s in full]).reshape(-1, len(full)).tolist()]):
+        if len(prob) > 6:
+            break
+        s_in = [float(v) for v in S_in[idx]]
+        s_out = [float(v) for v in so[idx]]
+        if not case["is_active"]:
+            if s_out != s_in:
+                prob.append(f"entry {idx}: inactive aperture changed survival {s_in} -> {s_out}")
+            continue
+        ai = bidx(idx, ap_bs, full)
+        kw = {"x_max": float(xs[ai]), "y_max": float(ys[ai]), "shape": case["shape"], "is_active": True}
+        kws = [kw] + ([{"x_max": kw["y_max"], "y_max": kw["x_max"], "shape": case["shape"], "is_active": True}] if case["where"] == "two_apertures" else [])
+        rows = [[float(v) for v in r] for r in P_ap[idx]]
+        masks = [[expected_mask(k, r[0], r[2]) for r in rows] for k in kws]
+        if any(m is None for ms in masks for m in ms):
+            continue                              # (only after a drift: a coordinate on an edge is unspecified)
+        exp = [s * min(ms[i] for ms in masks) if min(ms[i] for ms in masks) == 1 else 0.0 for i, s in enumerate(s_in)]
+        if s_out != exp:
+            prob.append(f"entry {idx} (x_max={kw['x_max']!r}, y_max={kw['y_max']!r}): survival {s_out}, expected {exp} "
+                        f"(incoming {s_in}, x={[r[0] for r in rows]}, y={[r[2] for r in rows]})")
+            continue
+        # the real un-vectorised aperture(s) on the un-vectorised beam of this entry
+        e_in = {"type": "particle", "particles": [[float(v) for v in r] for r in P_in[idx]], "energy": float(beam.energy), "charges":
+                [float(v) for v in beam.particle_charges], "survival": s_in}
+        b1 = realgen.build_beam(e_in, dtype=dt)
+        if case["where"] == "segment_drift":
+            b1 = pre.track(b1)
+        e_at = observe_pbeam(b1)
+        for k in kws:
+            b1 = scalar_aperture(k, dt).track(b1)
+        if [float(v) for v in b1.survival_probabilities] != s_out:
+            prob.append(f"entry {idx}: vectorised aperture gives survival {s_out}, the un-vectorised aperture x_max={kw['x_max']!r}, "
+                        f"y_max={kw['y_max']!r} gives {[float(v) for v in b1.survival_probabilities]}")
+            continue
+        if case["where"] != "two_apertures":
+            coq_cases.append((kw, e_at, dict(e_at, survival=s_out)))
+        # total charge and every statistic of the entry
+        qf = sum(Fraction(q) * Fraction(s) for q, s in zip(e_in["charges"], s_out))
+        if tuple(tq.shape) == full and not abs(float(tq[idx]) - float(qf)) <= eps * max(float(qf), 1e-300) * 8:
+            prob.append(f"entry {idx}: total_charge {float(tq[idx])!r}, sum of charge x survival {float(qf)!r}")
+        ref = realgen.build_beam(dict(e_in, survival=s_out, particles=[[float(v) for v in r] for r in torch.broadcast_to(out.particles, full + (n, 7))[idx]]), dtype=dt)
+        scale = max(abs(v) for r in rows for v in r[:6])
+        for nme, v in stats.items():
+            if tuple(v.shape) != full:
+                prob.append(f"{nme} has shape {tuple(v.shape)}, expected {full}")
+                continue
+            vr = float(torch.as_tensor(getattr(ref, nme), dtype=torch.float64))
+            va = float(v[idx])
+            if not math.isfinite(vr):
+                continue                          # fewer than two survivors: statistic undefined
+            tol = 1e3 * eps * max(abs(va), abs(vr)) + eps * (scale * (scale if nme in ("sigma_xpx", "sigma_ypy") else 1.0) if nme != "total_charge" else 1e-12)
+            if not abs(va - vr) <= tol:
+                prob.append(f"entry {idx} {nme}: vectorised beam {va!r}, un-vectorised beam with the same losses {vr!r}")
+    return prob, coq_cases
+
+
+def shrink_vec_aperture(case):
+    """un-vectorise what can be un-vectorised, drop particles, while the failure persists"""
+    def fails(c):
+        try:
+            return bool(vec_aperture_oracle(c)[0])
+        except Exception:
+            return False
+    for cand in ({"where": "alone"}, {"dtype": "float64"}, {"beam_mode": "plain", "particles": None, "survival": None}):
+        c2 = copy.deepcopy(case)
+        c2.update(cand)
+        if cand.get("beam_mode") == "plain":
+            p, s = case["particles"], case["survival"]
+            while isinstance(p[0][0], list):
+                p = p[0]
+            while isinstance(s[0], list):
+                s = s[0]
+            c2["particles"], c2["survival"] = p, s
+        if c2 != case and fails(c2):
+            case = c2
+    if case["beam_mode"] == "plain":
+        k = 0
+        while len(case["charges"]) > 1 and k < len(case["charges"]):
+            c2 = copy.deepcopy(case)
+            for key in ("particles", "survival", "charges"):
+                del c2[key][k]
+            if fails(c2):
+                case = c2
+            else:
+                k += 1
+    return case
+
+
+def vec_aperture_stage(run, n_cases):
+    coq, terms, bad = [], [], []
+    import cheetah
+    for k in range(n_cases):
+        case = gen_vec_aperture_case(run.rng)
+        prob, coq_cases = vec_aperture_oracle(case)
+        run.add_case(["ap_vec", case], case["is_active"])
+        run.count("apvec_layout_" + case["layout"])
+        run.count("apvec_beam_" + case["beam_mode"])
+        run.count("apvec_" + case["where"])
+        run.count("apvec_" + case["dtype"] + "_" + case["shape"] + ("" if case["is_active"] else "_inactive"))
+        if prob:
+            case = shrink_vec_aperture(case)
+            bad.append({"kind": "aperture_vectorised", "case": case, "problems": vec_aperture_oracle(case)[0] or prob,
+                        "relation": "entry by entry a vectorised aperture acts like the un-vectorised aperture with that entry's half sizes: survival "
+                                    "zeroed strictly outside, kept strictly inside; survival tensor of the broadcast shape; total charge and statistics per entry"})
+            continue
+        for kw, e_in, e_out in coq_cases[:8]:
+            if finite_beam(e_in):
+                run.count("apvec_entries_checked_in_coq")
+                coq.append((kw, e_in, e_out))
+                terms.append(f"mkapcase {coq_ap(kw)} {coq_pbeam(e_in)} {coq_pbeam(e_out)}")
+        if k % 6 == 0:                            # ParameterBeam through a vectorised aperture: returned as is
+            try:
+                _b, ap, _dt = vec_aperture_objects(case)
+                pb = realgen.gen_parameter_beam(run.rng)
+                b = realgen.build_beam(pb)
+                o = ap.track(b)
+                if not (isinstance(o, cheetah.ParameterBeam) and torch.equal(o._mu, b._mu) and torch.equal(o._cov, b._cov) and torch.equal(o.total_charge, b.total_charge)):
+                    bad.append({"kind": "aperture_parameter", "aperture": {"x_max": case["x_max"], "y_max": case["y_max"], "shape": case["shape"],
+                                                                             "is_active": case["is_active"]}, "beam": pb,
+                                "relation": "Aperture.track(ParameterBeam) returns the beam unchanged"})
+            except Exception as ex:
+                bad.append({"kind": "aperture_parameter_raises", "case": case, "problems": [repr(ex)[:300]]})
+    failing = common.run_shards(PID, "apvec", PREAMBLE, terms, "ap_check", shard=50, jobs=8)
+    run.cov["traces_validated_against_impl"] += len(coq)
+    bad.sort(key=lambda it: len(json.dumps(it)))
+    return coq, failing, bad
+
+
 # ---------------------------------------------------------------- real lattices: energy / charges / survival / blocking
 def real_flat(spec):
     return flat_leaves(spec)
@@ -767,6 +1065,8 @@ def recheck(item):
         return stats_filtered_oracle(item["beam"]) or []
     if k == "stats_vectorised":
         return vec_stats_oracle(item["case"])[0]
+    if k in ("aperture_vectorised", "aperture_parameter_raises"):
+        return vec_aperture_oracle(item["case"])[0]
     if k == "real_lattice":
         st, prob = energy_oracle(item["lattice"], item["beam"])
         return prob
@@ -811,6 +1111,12 @@ def main(tier, replay=None):
     lat_cases, lat_fail, lat_bad = exact_lattice_stage(run, 3000 if thorough else 250, 3 if thorough else 2)
     st_cases, st_fail, st_bad = stats_stage(run, 3000 if thorough else 300, 600 if thorough else 40)
     real_bad = energy_stage(run, 1500 if thorough else 70)
+    # vectorised apertures (half sizes with a batch shape mixing +inf and finite entries), after the older stages, which keep their random
+    # stream; the per-entry Coq cases join the aperture correspondence, the oracle findings join the aperture findings
+    vap_cases, vap_fail, vap_bad = vec_aperture_stage(run, 1200 if thorough else 90)
+    ap_fail = ap_fail + [len(ap_cases) + i for i in vap_fail]
+    ap_cases = ap_cases + vap_cases
+    ap_bad = ap_bad + vap_bad
     run.cov["tested_only"] = ["energy accounting / charge / survival invariants on lattices of all real element classes (float64, 1e-9 relative): "
                               "the Coq theorems cover them modulo the leaf contract, which is discharged in Coq only for the modelled classes",
                               "sigma_* (square root) is compared through its square",
